@@ -52,7 +52,7 @@ def canon_etree(root):
             out.append(("C", e.text if e.text is not None else ""))
             return False
         if tag == "<!DOCTYPE>":
-            out.append(("D", e.text, e.get("publicId"), e.get("systemId")))
+            out.append(("D", e.text or "", e.get("publicId"), e.get("systemId")))
             return False
         if tag == "DOCUMENT_ROOT":
             out.append(("doc",))
@@ -99,7 +99,7 @@ def canon_dom(root):
             out.append(("C", n.data))
             return False
         if t == Node.DOCUMENT_TYPE_NODE:
-            out.append(("D", n.name, n.publicId, n.systemId))
+            out.append(("D", n.name or "", n.publicId, n.systemId))  # minidom stores a missing name as None
             return False
         if t == Node.DOCUMENT_NODE:
             out.append(("doc",))
@@ -116,11 +116,9 @@ def canon_dom(root):
                     attrs.append(("{%s}%s" % (a.namespaceURI, a.localName), a.value))
                 else:
                     attrs.append((a.nodeName, a.value))
-            ns = n.namespaceURI or None
-            local = n.localName if n.localName is not None else n.nodeName
-            if ns is None:
-                local = n.nodeName
-            out.append(("S", ns, local, tuple(attrs)))
+            # html5lib passes the whole tag name as the qualified name, so nodeName (not localName,
+            # which minidom derives by splitting at ':') is the element's name
+            out.append(("S", n.namespaceURI or None, n.nodeName, tuple(attrs)))
             return True
         raise ValueError("unexpected dom node type %r" % t)
 
